@@ -98,6 +98,7 @@ fn check_snapshot(st: &State, floor: u64) -> Option<String> {
 /// the `parking_lot` lock — every later snapshot must still show a whole number of rounds.
 fn backstep_phase(run: &mut Run) {
     let tracer = Builder::new(IpAddr::V4(Ipv4Addr::new(10, 0, 0, 98))).max_samples(MAX_SAMPLES).max_flows(MAX_FLOWS).build().expect("builder");
+    let mut max_largest = 0u8;
     for k in 0..120u64 {
         let mut probes = make_round(k);
         if k % 7 == 3 {
@@ -112,18 +113,42 @@ fn backstep_phase(run: &mut Run) {
             probes.insert(1 + (k % u64::from(HOPS - 1)) as usize, ProbeStatus::Skipped);
             probes.push(ProbeStatus::NotSent);
         }
+        // rounds of different length with silent hops: round 0 reports the path [h1, ?, h3, ?], round 1 the shorter
+        // path [h1, h2, ?] — a shorter flow that fills an unknown entry of the registered one (merged, not a new flow)
+        let mut largest = HOPS;
+        let mut silent: Vec<usize> = vec![];
+        if k == 0 || k % 10 == 5 { silent = vec![1, 3]; largest = 4; }
+        if k == 1 || k % 10 == 6 { silent = vec![2]; largest = 3; }
+        for &i in &silent {
+            if let ProbeStatus::Complete(c) = probes[i].clone() {
+                probes[i] = ProbeStatus::Awaited(trippy_core::Probe {
+                    sequence: c.sequence, identifier: c.identifier, src_port: c.src_port, dest_port: c.dest_port, ttl: c.ttl,
+                    round: c.round, sent: c.sent, flags: trippy_core::Flags::empty(),
+                });
+            }
+        }
+        let plain = silent.is_empty() && k % 7 != 3 && k % 5 != 2;
         let t = tracer.clone();
-        let r = crate::util::guarded(move || t.verif_apply_round(&Round::new(&probes, TimeToLive(HOPS), CompletionReason::TargetFound)));
+        let r = crate::util::guarded(move || t.verif_apply_round(&Round::new(&probes, TimeToLive(largest), CompletionReason::TargetFound)));
         let st = tracer.snapshot();
         let n = st.round_count(FlowId(0));
-        let torn = st.hops().iter().find(|h| h.total_sent() != n || h.total_recv() != n || h.samples().len() != n.min(MAX_SAMPLES));
+        // every round is attributed to exactly one flow (the limit of 7 flows is never reached here): the per-flow
+        // round counts add up to the default flow's
+        let per_flow: usize = st.flows().iter().map(|(_, id)| st.round_count(*id)).sum();
+        if per_flow != n {
+            run.fail("c20-partial-round", format!("round {k}: the default flow counts {n} round(s) but the flows {:?} count {per_flow} together{}", st.flows().iter().map(|(f, id)| format!("{}:{f}", id.0)).collect::<Vec<_>>(), if r.is_err() { " — the handler panicked while holding the write lock" } else { "" }));
+            return;
+        }
+        let _ = plain;
+        let torn = st.hops().iter().find(|h| h.total_sent() != n);
         if let Some(h) = torn {
             run.fail("c20-partial-round", format!("round {k} (every 7th round: the answer of hop {} time-stamped 40 ms before its probe; every 5th: a Skipped slot in mid-round): the snapshot after it shows round_count {n} but hop ttl {} has sent {} recv {} samples {}{}",
                 (k % u64::from(HOPS)) + 1, h.ttl(), h.total_sent(), h.total_recv(), h.samples().len(), if r.is_err() { " — the handler panicked while holding the write lock" } else { "" }));
             return;
         }
-        if st.hops().len() != usize::from(HOPS) && n > 0 {
-            run.fail("c20-partial-round", format!("round {k}: round_count {n} but {} hops", st.hops().len()));
+        max_largest = max_largest.max(largest);
+        if st.hops().len() != usize::from(max_largest) && n > 0 {
+            run.fail("c20-partial-round", format!("round {k}: round_count {n} but {} hops (greatest path length reported {max_largest})", st.hops().len()));
             return;
         }
         run.count("c20:backstep-rounds-checked");
